@@ -226,6 +226,19 @@ func (p *c07) inputs(tier string, seed int64, idx int) []string {
 				ins = append(ins, strings.Repeat(" ", col)+"x:a \"first\n"+ind+"second\n"+ind+"\";", strings.Repeat(" ", col)+"x:a \"first\n"+ind+"second")
 			}
 		}
+		// single tokens of sizes around powers of two up to a few megabytes: a quoted string, a single-quoted one, an
+		// unquoted token, a run of blanks, a comment; in a complete text and in one that is cut off after the token
+		for _, n := range []int{4095, 4096, 4097, 65535, 65536, 65537, 131072, 1<<20 + 1, 1<<22 + 3} {
+			body := strings.Repeat("y", n)
+			toks := []string{"\"" + body + "\"", "'" + body + "'", body, strings.Repeat(" ", n) + "v", "/*" + body + "*/ v"}
+			if n <= 131072 {
+				// (the time the parser takes for a quoted string grows faster than its number of lines)
+				toks = append(toks, "\""+strings.Repeat("ab\n  ", n/5)+"\"")
+			}
+			for _, tok := range toks {
+				ins = append(ins, "module m { namespace urn:m; prefix m; description "+tok+"; leaf l { type string; } }", "module m { description "+tok, "module m { description "+tok+"; leaf")
+			}
+		}
 		return append(ins, c07AfterLastToken()...)
 	}
 	idx--
